@@ -458,6 +458,60 @@ def gen_data(tasks):
 
 
 OUT2 = os.path.join(VERIF, "coq", "gen", "GenTasksData.v")
+OUT3 = os.path.join(VERIF, "coq", "gen", "GenSorting.v")
+
+DFS_SRC = '''
+def _dfs(graph, source, stack, visited):
+    visited.add(source)
+    todo = [(source, iter(graph.get(source, [])))]
+    while todo:
+        vertex, neighbours = todo[-1]
+        for neighbour in neighbours:
+            if neighbour not in visited:
+                visited.add(neighbour)
+                todo.append((neighbour, iter(graph.get(neighbour, []))))
+                break
+        else:
+            todo.pop()
+            stack.appendleft(vertex)
+'''
+TOPOSORT_SRC = '''
+def toposort(graph, start=None):
+    stack = deque()
+    visited = set()
+    if start is None:
+        start = reduce(set.union, graph.values(), graph.keys())
+    for vertex in start:
+        if vertex not in visited:
+            _dfs(graph, vertex, stack, visited)
+    return list(stack)
+'''
+
+
+def gen_sorting():
+    """sorting._dfs / sorting.toposort must be, statement for statement, the text that lib/ToposortIter.v models (istep is one
+    pass of the while loop, itoposort the loop over the start vertices); comments and docstrings aside"""
+    tree = ast.parse(open(os.path.join(REPO, "xdeps", "sorting.py")).read())
+    for name, want in (("_dfs", DFS_SRC), ("toposort", TOPOSORT_SRC)):
+        f = next((n for n in tree.body if isinstance(n, ast.FunctionDef) and n.name == name), None)
+        if f is None:
+            raise Unsupported(f"sorting.{name} not found")
+        w = ast.parse(want).body[0]
+        if ast.dump(f.args) != ast.dump(w.args) or f.decorator_list:
+            raise Unsupported(f"signature of sorting.{name} changed")
+        got = [x for x in f.body if not is_docstring_or_log(x)]
+        if len(got) != len(w.body) or any(ast.dump(a) != ast.dump(b) for a, b in zip(got, w.body)):
+            raise Unsupported(f"sorting.{name} changed:\n" + "\n".join(ast.unparse(x) for x in got))
+    # what tasks.py calls must be this very function
+    imp = [ast.unparse(n) for n in ast.parse(open(os.path.join(REPO, "xdeps", "tasks.py")).read()).body if isinstance(n, ast.ImportFrom) and n.module == "sorting"]
+    if imp != ["from .sorting import toposort"]:
+        raise Unsupported(f"tasks.py imports from sorting: {imp}")
+    return ("(* GENERATED by tools/py2v/gen_tasks.py: xdeps/sorting.py holds, statement for statement, the iterative depth-first search\n"
+            "   modelled in lib/ToposortIter.v (one [istep] = one pass of the while loop of _dfs) — do not edit. *)\n"
+            "From Coq Require Import List.\nFrom XD Require Import lib.Toposort lib.ToposortIter.\n\n"
+            "Definition src_dfs_pass {K : Type} := @istep K.\n"
+            "Definition src_toposort {K : Type} := @itoposort K.\n")
+
 
 
 def main():
@@ -488,6 +542,7 @@ def main():
         parts.append(gen_find_tasks(cls))
         parts.append(gen_cleanup_refresh(cls))
         data = gen_data(tasks)
+        sorting = gen_sorting()
     except (Unsupported, OSError, SyntaxError) as e:
         print("gen_tasks: cannot translate: " + str(e))
         return 1
@@ -507,6 +562,8 @@ def main():
             "Import ListNotations.\n\n" + data)
     if not os.path.exists(OUT2) or open(OUT2).read() != txt2:
         open(OUT2, "w").write(txt2)
+    if not os.path.exists(OUT3) or open(OUT3).read() != sorting:
+        open(OUT3, "w").write(sorting)
     return 0
 
 
